@@ -11,6 +11,7 @@
 //   MODE <device.mode()>     D <device.properties()>
 //   K0/M0/S0 <kernel|memory|streamProperties()>      K1/M1/S1 <...Properties(per-call props)>
 //   SO/MO <properties() of the created stream / memory>     KO <kernel.properties()>   KV <int seen by the kernel>
+//   KB <properties() of the kernel loaded with buildKernelFromBinary from the binary just built>
 //   EXC <message>  when libocca raised occa::exception
 #include <cstdio>
 #include <cstdlib>
@@ -105,6 +106,9 @@ int main(int argc, char **argv) {
           dev.finish();
           m.copyTo(&host);
           printf("KV %d\n", host);
+          // the same binary loaded again with the same per-call properties
+          occa::kernel kb = dev.buildKernelFromBinary(k.binaryFilename(), "echo", call);
+          printf("KB %s\n", oneLine(kb.properties()).c_str());
         }
       }
     } catch (occa::exception &e) {
